@@ -39,7 +39,8 @@ import (
 
 // Tab describes a table module of a case.
 type Tab struct {
-	Kind string // I identity, T testutils.Table (single), S table.Static (multi), M multi with error switch
+	Kind string // I identity, T testutils.Table (single), S table.Static (multi), M multi with error switch,
+	// L table.email_localpart, O table.email_localpart_optional (computed, no rows)
 	Err  bool
 	Keys []string // insertion order
 	Rows map[string][]string
@@ -112,6 +113,19 @@ func (t *Tab) Build() module.Table {
 			err = errors.New("c15: table unavailable")
 		}
 		return multiTab{m: t.Rows, err: err}
+	case "L", "O":
+		if t.Err {
+			panic("email_localpart table cannot fail")
+		}
+		name := "table.email_localpart"
+		if t.Kind == "O" {
+			name = "table.email_localpart_optional"
+		}
+		mod, err := table.NewEmailLocalpart(name, "c15", nil, nil)
+		if err != nil {
+			panic(err)
+		}
+		return mod.(module.Table)
 	}
 	panic("bad table kind " + t.Kind)
 }
@@ -176,6 +190,10 @@ func (t *Tab) ConfigNode(directive string) config.Node {
 		return config.Node{Name: directive, Args: []string{"identity"}}
 	case "S":
 		return config.Node{Name: directive, Args: []string{"static"}, Children: t.staticNodes()}
+	case "L":
+		return config.Node{Name: directive, Args: []string{"email_localpart"}}
+	case "O":
+		return config.Node{Name: directive, Args: []string{"email_localpart_optional"}}
 	}
 	memMu.Lock()
 	memSeq++
@@ -226,8 +244,20 @@ func (t *Tab) groups(tag string) string {
 
 // lookup as the reference sees the table: all values configured for the key.
 func (t *Tab) refValues(k string) (vals []string, found bool) {
-	if t.Kind == "I" {
+	switch t.Kind {
+	case "I":
 		return []string{k}, true
+	case "L", "O":
+		// "the local part of the address": what stands before the last at-sign, when both sides
+		// of it are non-empty; a key that is not an address has no local part (L: no mapping,
+		// O: the key itself)
+		if l, d, ok := SplitLast(k); ok && l != "" && d != "" {
+			return []string{l}, true
+		}
+		if t.Kind == "O" {
+			return []string{k}, true
+		}
+		return nil, false
 	}
 	v, ok := t.Rows[k]
 	return v, ok && len(v) > 0
@@ -493,6 +523,11 @@ func refEntries(cs *Case) []string {
 // is one concrete address covered by an entry?  returns the kind of entry ("" = not covered)
 func covered(entries []string, whole, domain string, hasDomain bool) string {
 	for _, e := range entries {
+		if e == "" {
+			// an empty entry (key-only line, trailing comma, empty SQL column) names no address,
+			// no domain and is not the wildcard: it entitles to nothing
+			continue
+		}
 		if e == "*" {
 			return "star"
 		}
@@ -670,6 +705,40 @@ func Distribution(out *vh.Out, cs *Case, r *Run) {
 	out.Stat(fmt.Sprintf("hdr.fromfields.%d", len(r.FromVals)))
 	out.Stat(fmt.Sprintf("hdr.senderfields.%d", len(r.SenderVals)))
 	out.Stat("hdr.gtknown." + B01(cs.GTKnown))
+	// the sending user's row: entries that are not an address, a domain or "*"
+	if entries := refEntries(cs); len(entries) > 0 && cs.U2E.Kind != "I" {
+		kinds := map[string]bool{}
+		for _, e := range entries {
+			l, d, has := SplitLast(e)
+			switch {
+			case e == "":
+				kinds["empty"] = true
+			case e == "*":
+				kinds["star"] = true
+			case has && l != "" && d != "":
+				kinds["address"] = true
+			case has:
+				kinds["half"] = true
+			case strings.Contains(e, "."):
+				kinds["domain"] = true
+			default:
+				kinds["bare-word"] = true
+			}
+		}
+		for k := range kinds {
+			out.Stat("cfg.u2e.row-has." + k)
+		}
+	}
+	if cs.Conn && cs.User != "" {
+		// does the value the entitlement test sees (after from_normalize) have a domain?
+		if nf, err := authz.NormalizeFuncs[cs.FromNorm](cs.MailFrom); err == nil {
+			l, d, has := SplitLast(nf)
+			out.Stat("mailfrom.normalised-splits." + B01(has && l != "" && d != ""))
+		}
+		if strings.EqualFold(cs.MailFrom, "postmaster") {
+			out.Stat("mailfrom.bare-postmaster." + r.Sender.Reason)
+		}
+	}
 	if cs.GTKnown {
 		// does the library's reading agree with the structure the bytes were rendered from?
 		agree := len(r.FromVals) == len(cs.GTFrom)
@@ -680,6 +749,12 @@ func Distribution(out *vh.Out, cs *Case, r *Run) {
 			}
 			if err != nil || len(l) != len(cs.GTFrom[i]) {
 				agree = false
+				if err != nil && hasForeignWord(r.FromVals[i]) {
+					// well-formed, but net/mail does not know the charset of an encoded word
+					out.Stat("hdr.parse-fails.charset-unknown-to-net-mail")
+				} else {
+					out.Stat("hdr.parse-fails.other")
+				}
 				break
 			}
 			for j, a := range l {
@@ -699,7 +774,7 @@ func Distribution(out *vh.Out, cs *Case, r *Run) {
 // ---------------------------------------------------------------- generators
 
 var Domains = []string{"example.org", "example.com", "münchen.de", "пример.рф", "corp.example.net", "bücher.example"}
-var Locals = []string{"alice", "bob", "carol", "rené", "дима", "first.last", "a+tag", "o'neil", "big.boss", "straße", "sigmaς"}
+var Locals = []string{"alice", "bob", "carol", "rené", "дима", "first.last", "a+tag", "o'neil", "big.boss", "straße", "sigmaς", "strasse", "sigmaσ"}
 var Users = []string{"alice", "bob@example.org", "carol", "rené", "дима@пример.рф", "big.boss@corp.example.net", "example.org", "svc-mailer", "straße"}
 
 var NormNames = []string{"auto", "precis_casefold_email", "precis_casefold", "precis_email", "precis", "casefold", "noop"}
@@ -798,7 +873,9 @@ func randAddr(r *vh.Rng) Addr {
 
 // near misses of an entitled address / domain
 func nearMiss(r *vh.Rng, a Addr) Addr {
-	switch r.Intn(8) {
+	switch r.Intn(9) {
+	case 8:
+		return Addr{"x@" + a.Local, a.Domain} // splitting at the first at-sign makes the entitled address the "domain"
 	case 0:
 		return Addr{a.Local, "sub." + a.Domain}
 	case 1:
@@ -823,6 +900,12 @@ type world struct {
 	entDoms  []string // domains the user is entitled to
 	star     bool
 	others   []Addr // addresses of other users
+	// entries that are not an address, a domain or "*": bare local parts ("alice"), halves
+	// ("alice@", "@example.org"), the empty string.  They entitle to no address; the picker
+	// draws the addresses a sloppy comparison would let through.
+	oddLocals []string
+	oddDoms   []string
+	empty     bool
 }
 
 func normOrSelf(name, s string) string {
@@ -851,7 +934,7 @@ func GenCase(r *vh.Rng, smtpSafe bool) *Case {
 	// --- who is who
 	userCanon := Users[r.Intn(len(Users))]
 	w := &world{}
-	cs.U2E.Kind = r.Pick("I", "T", "S", "S", "M")
+	cs.U2E.Kind = r.Pick("I", "I", "I", "T", "T", "T", "S", "S", "S", "S", "S", "S", "M", "M", "M", "L", "O")
 	if cs.U2E.Kind == "T" || cs.U2E.Kind == "M" {
 		cs.U2E.Err = r.Chance(6)
 	}
@@ -880,6 +963,15 @@ func GenCase(r *vh.Rng, smtpSafe bool) *Case {
 			w.entitled = append(w.entitled, Addr{l, d})
 		} else if strings.Contains(userCanon, ".") {
 			w.entDoms = append(w.entDoms, userCanon)
+		} else {
+			w.oddLocals = append(w.oddLocals, userCanon)
+		}
+	} else if cs.U2E.Kind == "L" || cs.U2E.Kind == "O" {
+		// the local part of the account name is the (only) entry: a value without a domain
+		if l, _, ok := SplitLast(userCanon); ok {
+			w.oddLocals = append(w.oddLocals, l)
+		} else if cs.U2E.Kind == "O" {
+			w.oddLocals = append(w.oddLocals, userCanon)
 		}
 	} else {
 		// the sending user's row
@@ -889,24 +981,53 @@ func GenCase(r *vh.Rng, smtpSafe bool) *Case {
 			n = 1
 		}
 		for i := 0; i < n; i++ {
-			switch k := r.Intn(10); {
-			case k < 6:
+			switch k := r.Intn(20); {
+			case k < 10:
 				a := randAddr(r)
 				w.entitled = append(w.entitled, a)
 				vals = append(vals, entrySpelling(a.String(), true))
-			case k < 9:
+			case k < 15:
 				d := Domains[r.Intn(len(Domains))]
 				w.entDoms = append(w.entDoms, d)
 				vals = append(vals, entrySpelling(d, false))
-			default:
+			case k < 16:
 				w.star = true
 				vals = append(vals, "*")
+			case k < 18:
+				// what table.file yields for a key-only line or a list ending in a comma
+				w.empty = true
+				vals = append(vals, "")
+			case k < 19:
+				// only a local part
+				l := r.Pick(Locals[r.Intn(len(Locals))], "postmaster", "Postmaster", userCanon)
+				if strings.Contains(l, "@") {
+					l = "alice"
+				}
+				w.oddLocals = append(w.oddLocals, l)
+				vals = append(vals, l)
+			default:
+				// half an address
+				if r.Bool() {
+					l := Locals[r.Intn(len(Locals))]
+					w.oddLocals = append(w.oddLocals, l)
+					vals = append(vals, l+"@")
+				} else {
+					d := Domains[r.Intn(len(Domains))]
+					w.oddDoms = append(w.oddDoms, d)
+					vals = append(vals, "@"+d)
+				}
 			}
+		}
+		if n > 1 && len(vals) > 1 && r.Chance(8) {
+			// the trailing comma / the doubled comma of a hand-written list
+			w.empty = true
+			vals[1+r.Intn(len(vals)-1)] = ""
 		}
 		if !r.Chance(7) { // sometimes the user has no row at all
 			cs.U2E.Add(keyOf(userCanon), vals...)
 		} else {
 			w.entitled, w.entDoms, w.star = nil, nil, false
+			w.oddLocals, w.oddDoms, w.empty = nil, nil, false
 		}
 		// other users' rows
 		for i, n := 0, r.Intn(3); i < n; i++ {
@@ -917,6 +1038,9 @@ func GenCase(r *vh.Rng, smtpSafe bool) *Case {
 			a := randAddr(r)
 			w.others = append(w.others, a)
 			vs := []string{entrySpelling(a.String(), true)}
+			if cs.U2E.Kind != "T" && r.Chance(10) {
+				vs = append(vs, "")
+			}
 			if cs.U2E.Kind != "T" && r.Bool() {
 				d := Domains[r.Intn(len(Domains))]
 				vs = append(vs, d)
@@ -950,7 +1074,10 @@ func GenCase(r *vh.Rng, smtpSafe bool) *Case {
 	// --- prepare_email
 	cs.Prep.Kind = "I"
 	var aliases []Addr // alias addresses that map to something
-	if r.Chance(25) {
+	if r.Chance(12) {
+		// computed tables that reduce an address to a value without a domain
+		cs.Prep.Kind = r.Pick("L", "L", "O")
+	} else if r.Chance(25) {
 		cs.Prep.Kind = r.Pick("T", "S", "M")
 		if cs.Prep.Kind != "S" {
 			cs.Prep.Err = r.Chance(8)
@@ -972,7 +1099,11 @@ func GenCase(r *vh.Rng, smtpSafe bool) *Case {
 				case k < 8:
 					targets = append(targets, w.others[r.Intn(len(w.others))].String())
 				case k == 8:
-					targets = append(targets, r.Pick("no-at-sign", "@nolocal.example", "nodomain@", ""))
+					t := r.Pick("no-at-sign", "@nolocal.example", "nodomain@", "", "postmaster", "POSTMASTER", "alice")
+					if len(w.oddLocals) > 0 && r.Bool() {
+						t = w.oddLocals[r.Intn(len(w.oddLocals))]
+					}
+					targets = append(targets, t)
 				default:
 					targets = append(targets, randAddr(r).String())
 				}
@@ -987,7 +1118,21 @@ func GenCase(r *vh.Rng, smtpSafe bool) *Case {
 	}
 
 	// --- address picker
+	localOnly := cs.Prep.Kind == "L" || cs.Prep.Kind == "O"
 	pick := func() Addr {
+		if (len(w.oddLocals) > 0 || len(w.oddDoms) > 0 || localOnly) && r.Chance(30) {
+			// what a comparison by local part / by halves / of a domain-less value would let through
+			switch k := r.Intn(10); {
+			case k < 4 && len(w.oddLocals) > 0:
+				return addrVariant(r, Addr{w.oddLocals[r.Intn(len(w.oddLocals))], Domains[r.Intn(len(Domains))]})
+			case k < 6 && len(w.oddLocals) > 0:
+				return Addr{Locals[r.Intn(len(Locals))], w.oddLocals[r.Intn(len(w.oddLocals))]}
+			case k < 8 && len(w.oddDoms) > 0:
+				return addrVariant(r, Addr{Locals[r.Intn(len(Locals))], w.oddDoms[r.Intn(len(w.oddDoms))]})
+			case k < 9:
+				return Addr{r.Pick("postmaster", "Postmaster", "POSTMASTER"), Domains[r.Intn(len(Domains))]}
+			}
+		}
 		switch k := r.Intn(20); {
 		case k < 7 && len(w.entitled) > 0:
 			return addrVariant(r, w.entitled[r.Intn(len(w.entitled))])
@@ -1041,6 +1186,17 @@ func GenCase(r *vh.Rng, smtpSafe bool) *Case {
 		cs.MailFrom = r.Pick("", "postmaster", "POSTMASTER", "no-at-sign", "@example.org", "alice@", "a@b@example.org")
 	case k == 0:
 		cs.MailFrom = r.Pick("", "postmaster", "POSTMASTER")
+	case k == 2:
+		// senders without a domain: the null sender, the bare postmaster in several spellings
+		cs.MailFrom = r.Pick("", "postmaster", "Postmaster", "POSTMASTER", "postmaster", "PostMaster")
+	case k == 3 && !smtpSafe:
+		// … a bare local part, half an address
+		a := pick()
+		l := a.Local
+		if len(w.oddLocals) > 0 && r.Bool() {
+			l = w.oddLocals[r.Intn(len(w.oddLocals))]
+		}
+		cs.MailFrom = r.Pick(l, l, l+"@", "@"+a.Domain, "@")
 	case k == 1 && !smtpSafe:
 		a := pick()
 		cs.MailFrom = a.Local + "@" + a.Domain + "."
@@ -1104,8 +1260,10 @@ func quoteLocal(local string, force bool) string {
 type mbox struct {
 	addr  Addr
 	name  string
-	style int // 0 bare, 1 angle, 2 atom name, 3 quoted name, 4 encoded-word name, 5 trailing comment
-	fq    bool
+	style int // 0 bare, 1 angle, 2 atom name, 3 quoted name, 4 encoded-word name, 5 trailing comment,
+	// 6 encoded-word name + angle-addr + comment holding an encoded word: a reader that decodes the
+	// words BEFORE parsing the structure sees the name's specials as syntax ("x@y (" … ")")
+	fq bool
 }
 
 func isPhraseAtoms(s string) bool {
@@ -1130,7 +1288,41 @@ func isPhraseAtoms(s string) bool {
 
 // RFC 2047 encoded words as allowed inside a phrase: every byte that is not a letter or digit is
 // escaped (Q) or the whole chunk is base64 (B); long names are split into several words.
+//
+// The charset label: UTF-8, or — for chunks that are pure ASCII, whose bytes are the same in
+// all of them — one of the ASCII-compatible charsets a mail reader meets (net/mail itself knows
+// UTF-8, ISO-8859-1 and US-ASCII only and fails the whole field on any other).
+var asciiCompatibleCharsets = []string{"us-ascii", "iso-8859-1", "ISO-8859-15", "koi8-r", "KOI8-U", "windows-1251",
+	"windows-1252", "iso-8859-5", "iso-2022-jp", "gb2312", "euc-kr", "big5"}
+
+// hasForeignWord: does the field value hold an encoded word in a charset net/mail does not know?
+func hasForeignWord(v string) bool {
+	for _, part := range strings.Split(v, "=?")[1:] {
+		if i := strings.Index(part, "?"); i > 0 {
+			switch strings.ToLower(part[:i]) {
+			case "utf-8", "us-ascii", "iso-8859-1":
+			default:
+				return true
+			}
+		}
+	}
+	return false
+}
+
+func isASCII(s string) bool {
+	for i := 0; i < len(s); i++ {
+		if s[i] >= 0x80 {
+			return false
+		}
+	}
+	return true
+}
+
 func encodedWords(r *vh.Rng, name string, fold func() string) string {
+	return encodedWordsIn(r, name, fold, r.Chance(12))
+}
+
+func encodedWordsIn(r *vh.Rng, name string, fold func() string, foreign bool) string {
 	runes := []rune(name)
 	var words []string
 	for len(runes) > 0 {
@@ -1140,8 +1332,12 @@ func encodedWords(r *vh.Rng, name string, fold func() string) string {
 		}
 		chunk := string(runes[:n])
 		runes = runes[n:]
+		cset := r.Pick("utf-8", "UTF-8")
+		if foreign && isASCII(chunk) {
+			cset = asciiCompatibleCharsets[r.Intn(len(asciiCompatibleCharsets))]
+		}
 		if r.Bool() {
-			words = append(words, "=?"+r.Pick("utf-8", "UTF-8")+"?"+r.Pick("b", "B")+"?"+base64.StdEncoding.EncodeToString([]byte(chunk))+"?=")
+			words = append(words, "=?"+cset+"?"+r.Pick("b", "B")+"?"+base64.StdEncoding.EncodeToString([]byte(chunk))+"?=")
 			continue
 		}
 		var b strings.Builder
@@ -1155,7 +1351,7 @@ func encodedWords(r *vh.Rng, name string, fold func() string) string {
 				fmt.Fprintf(&b, "=%02X", c)
 			}
 		}
-		words = append(words, "=?utf-8?"+r.Pick("q", "Q")+"?"+b.String()+"?=")
+		words = append(words, "=?"+cset+"?"+r.Pick("q", "Q")+"?"+b.String()+"?=")
 	}
 	out := ""
 	for i, w := range words {
@@ -1188,15 +1384,39 @@ func (m mbox) render(r *vh.Rng, fold func() string) string {
 			}
 			return ch
 		}, m.name)
+		if r.Chance(25) && c != "" {
+			// RFC 2047 allows encoded words inside comments
+			return spec + " (" + encodedWords(r, c, fold) + ")"
+		}
 		return spec + " (" + c + ")"
+	case 6:
+		foreign := r.Chance(70)
+		open, close := r.Pick(" (", " (", " (", " (", ", (", " <", ";(", " (x) ("), r.Pick(")", ")", ")", ">", "))", "x)")
+		return encodedWordsIn(r, m.name+open, fold, foreign) + fold() + "<" + spec + ">" + fold() + "(" + encodedWordsIn(r, close, fold, foreign) + ")"
 	}
 	return spec
 }
 
 func genMbox(r *vh.Rng, a Addr, trickName func() string) mbox {
 	m := mbox{addr: a, style: r.Intn(6), fq: r.Chance(8)}
+	if r.Chance(6) {
+		m.style = 6
+	}
 	if m.style >= 2 {
 		m.name = trickName()
+	}
+	if m.style == 6 {
+		// the decoded name must read as an addr-spec: keep the bare address form of the trick
+		m.name = strings.Trim(strings.TrimPrefix(m.name, "Alice, "), "<>")
+		if i := strings.Index(m.name, ","); i >= 0 {
+			m.name = m.name[:i]
+		}
+		if i := strings.Index(m.name, "\""); i >= 0 {
+			m.name = strings.Trim(m.name[i:], "\"<> ")
+			if j := strings.Index(m.name, "\""); j >= 0 {
+				m.name = m.name[:j]
+			}
+		}
 	}
 	return m
 }
@@ -1338,8 +1558,13 @@ func genHeader(r *vh.Rng, cs *Case, pick func() Addr, trickName func() string) {
 			continue
 		}
 		spick := pick
-		if len(firstFrom) == 1 && r.Chance(15) {
-			spick = func() Addr { return firstFrom[0] } // Sender repeats the From address
+		if len(firstFrom) == 1 && r.Chance(20) {
+			// Sender repeats the From address: literally, or in another spelling of it
+			if r.Bool() {
+				spick = func() Addr { return firstFrom[0] }
+			} else {
+				spick = func() Addr { return addrVariant(r, firstFrom[0]) }
+			}
 		}
 		v, gt := genList(r, spick, trickName, 1, true)
 		fields = append(fields, fld{"Sender", v, gt, 2})
@@ -1404,7 +1629,40 @@ func Fixed() []*Case {
 	st.Kind = "S"
 	st.Add("alice", "alice@example.org", "corp.example.net")
 	rest := "To: someone@example.net\r\nSubject: hello\r\n"
+	// entries that are no address, no domain and not "*" (empty, bare local part, halves) and
+	// sender values without a domain (bare postmaster, prepare_email reducing to the local part)
+	odd := func(user, mailFrom, fromNorm, prepKind string, entries ...string) *Case {
+		var t Tab
+		t.Kind = "S"
+		t.Add(user, entries...)
+		cs := mk(user, mailFrom, t, "From: <alice@example.org>\r\n"+rest, [][]Addr{{alice}}, nil)
+		cs.FromNorm, cs.Prep.Kind = fromNorm, prepKind
+		return cs
+	}
 	return []*Case{
+		odd("backup", "postmaster", "noop", "I", ""),
+		odd("backup", "postmaster", "auto", "I", ""),
+		odd("backup", "POSTMASTER", "casefold", "I", "alice@example.org", ""),
+		odd("backup", "bob@example.com", "auto", "L", ""),
+		odd("backup", "bob@example.com", "auto", "O", "alice@example.org", ""),
+		odd("backup", "no-at-sign", "noop", "I", ""),
+		odd("backup", "alice@", "noop", "I", "", "alice"),
+		odd("alice", "alice@example.com", "auto", "I", "alice", "alice@example.org"),
+		odd("alice", "alice@example.com", "auto", "L", "alice"),
+		odd("alice", "bob@example.org", "auto", "I", "@example.org", "alice@example.org"),
+		odd("alice", "postmaster@example.com", "auto", "L", "postmaster"),
+		// lower-casing is not full case folding: ß / ss, ς / σ are different local parts
+		odd("alice", "straße@example.org", "casefold", "I", "strasse@example.org"),
+		odd("alice", "sigmaς@example.org", "casefold", "I", "sigmaσ@example.org"),
+		// own envelope sender, foreign From, Sender = the same foreign address in another spelling
+		mk("alice@example.org", "alice@example.org", ident, "From: <bob@example.com>\r\nSender: <BOB@EXAMPLE.COM>\r\n"+rest, [][]Addr{{bob}}, [][]Addr{{{"BOB", "EXAMPLE.COM"}}}),
+		mk("alice@example.org", "alice@example.org", ident, "From: <bob@xn--mnchen-3ya.de>\r\nSender: <bob@münchen.de>\r\n"+rest, [][]Addr{{{"bob", "xn--mnchen-3ya.de"}}}, [][]Addr{{{"bob", "münchen.de"}}}),
+		// encoded words in a charset net/mail does not know, decoding to RFC 5322 specials: for every
+		// RFC 5322 reader the one author is bob (display name "alice@example.org (", comment ")")
+		mk("alice@example.org", "alice@example.org", ident,
+			"From: =?koi8-r?q?alice=40example.org_=28?= <bob@example.com> (=?koi8-r?q?=29?=)\r\n"+rest, [][]Addr{{bob}}, nil),
+		mk("alice@example.org", "alice@example.org", ident,
+			"From: =?utf-8?q?alice=40example.org_=28?= <bob@example.com> (=?utf-8?q?=29?=)\r\n"+rest, [][]Addr{{bob}}, nil),
 		// the upstream integration cases: own address, someone else's address
 		mk("alice@example.org", "alice@example.org", ident, "From: <alice@example.org>\r\n"+rest, [][]Addr{{alice}}, nil),
 		mk("alice@example.org", "bob@example.com", ident, "From: <bob@example.com>\r\n"+rest, [][]Addr{{bob}}, nil),
